@@ -105,10 +105,22 @@ func learnNil(st *PathState, cond ssa.Value, truth bool) {
 		return // only error values: keeps the per-path environment small
 	}
 	isNil := (b.Op == token.EQL) == truth
-	if isNil {
-		st.consts[x] = ssa.NewConst(nil, x.Type())
-	} else if !st.tracked[x] {
-		st.consts[x] = nonNilMarker
+	set := func(x ssa.Value) {
+		if isNil {
+			st.consts[x] = ssa.NewConst(nil, x.Type())
+		} else if !st.tracked[x] {
+			st.consts[x] = nonNilMarker
+		}
+	}
+	set(x)
+	// an error carried out of a block through a merge (`r2 = err` … `if r2 != nil`): on this path the merge is the value
+	// it took, so what the branch says about one holds for the other
+	if phi, ok := x.(*ssa.Phi); ok {
+		if a, ok := st.alias[phi]; ok && a != nil {
+			if _, isConst := a.(*ssa.Const); !isConst && IsErrorType(a.Type()) {
+				set(a)
+			}
+		}
 	}
 }
 
@@ -336,6 +348,7 @@ type PathQ struct {
 	SinkEdge             func(e Edge, st *PathState) bool
 	Cut                  func(in ssa.Instruction, st *PathState) bool
 	CutEdge              func(e Edge, st *PathState) bool
+	Keep                 []ssa.Value // values the rule asks about after they are dead (an error seen only through a merge): facts about them are not pruned
 	Marked               []ssa.Value // values whose flow through phis is followed without any nil-ness assumption (PathState.Marked)
 	NoFold               bool        // disable branch folding on the tracked value
 	NoPrune              bool        // keep facts about dead values (debugging)
@@ -415,6 +428,9 @@ func (q *PathQ) find() (witness []string, found bool) {
 		q.initial[v] = true
 	}
 	for v := range q.Consts {
+		q.initial[v] = true
+	}
+	for _, v := range q.Keep {
 		q.initial[v] = true
 	}
 	initTracked := func(st *PathState) {
